@@ -3,6 +3,8 @@ context {formula, state, program, source ('trace'|'model'), trace?, at?} and say
 is that finding.  They only recognise already-triaged defects; they never judge a property."""
 from __future__ import annotations
 
+import json
+
 
 def _st(ctx):
     return ctx.get("state") or {}
@@ -121,6 +123,38 @@ def unbounded_transient(sig, ctx) -> bool:
     return True if led is None else any(len(led.get(t, [])) > 10 for t in over)
 
 
+def recovery_blocked_by_stale_message(sig, ctx) -> bool:
+    """A recovery sweep finds a RUNNING, started stage with untouched tasks (claim committed, plan lost in a crash) but
+    pushes NO StartTask because `has_pending_message_for_task` sees a message for the first task - a leftover of an
+    EARLIER crash: already processed (it will be de-duplicated) but never acked, its lock not yet lapsed.  The
+    redelivered StartStage is ignored (stage RUNNING and has tasks), nothing starts the task: wedged RUNNING."""
+    if ctx["formula"] not in sig["formulas"]:
+        return False
+    tr = ctx.get("trace")
+    if not tr:
+        return False
+    prog = ctx["program"]
+    crashes = 0
+    for e in tr["events"]:
+        if e["e"] == "crash":
+            crashes += 1
+        if e["e"] != "sweep" or crashes < 2:
+            continue
+        s = e["s"]
+        done = {json.dumps(d) for d in s["done"]}
+        for sd in prog["stages"]:
+            row = s["st"].get(sd["ref"])
+            if not row or row["status"] != "RUNNING" or not row["started"] or not sd["tasks"]:
+                continue
+            if not all(s["tk"].get(t["name"], {}).get("status") == "NOT_STARTED" for t in sd["tasks"]):
+                continue
+            first = sd["tasks"][0]["name"]
+            pend = [m for m in s["q"] if m["t"] == first]
+            if pend and all(json.dumps(m["id"]) in done for m in pend):
+                return True
+    return False
+
+
 def late_branch_kill(sig, ctx) -> bool:
     """A fired first-of / quorum join stage marked TERMINAL by the wait-retry exhaustion of the
     StartStage its late branch sent."""
@@ -168,5 +202,6 @@ PREDICATES = {
     "late_branch_kill": late_branch_kill,
     "race_formula": race_formula,
     "jump_after_cancel": jump_after_cancel,
+    "recovery_blocked_by_stale_message": recovery_blocked_by_stale_message,
     "always": always,
 }
